@@ -14,7 +14,8 @@ META = dict(
                 'is decided by forking on length comparisons); the oracle recomputes link sharing from the site sequence of every returned '
                 'route and brute-forces the existence of a disjoint combination',
     bounds=['3-4 ROADM sites, bidirectional links, symbolic link lengths in generic position', '1 group of 2 or 3 requests, or 2 groups '
-            'sharing a request; optional STRICT/LOOSE include node on the first request'],
+            'sharing a request; optional STRICT/LOOSE include node on the first request; nested and duplicate groups through '
+            'deduplicate_disjunctions; pairs with an include option on every request (STRICT, LOOSE, unsatisfiable LOOSE, mixed hop types)'],
     assumptions=['floats as reals', 'no exact ties between route lengths', 'completeness (a disjoint solution is found whenever one exists) '
                  'is only claimed, as in the property, for a single pair of requests'],
     stubs=[],
